@@ -25,11 +25,12 @@ def pvals(value, name):
     return {
         'name': f'pvals-{name}',
         'tasks': {
-            'V': {'params': [P('v'), P('ign', default=0, ignore=True), P('dflt', default=3, dpdv=True), P('pth', default=None, dtype='Path')], 'inputs': [], 'data': 'json'},
+            'V': {'params': [P('v'), P('ign', default=0, ignore=True), P('dflt', default=3, dpdv=True), P('pth', default=None, dtype='Path'),
+                             P('unit', default='m/s', dpdv=True)], 'inputs': [], 'data': 'json'},
             'W': {'params': [P('w', default=1)], 'inputs': [bc('V')], 'data': 'json'},
         },
         'configs': {'root': {'medium': 'json', 'tasks': ['V', 'W'], 'values': {'v': value, 'pth': '{DIR}/p'}}},
-        'root': 'root', 'global_vars': {'DIR': '/data'}, 'variants': {},
+        'root': 'root', 'global_vars': {'DIR': '/data', 'LENGTH': 'm'}, 'variants': {},
     }
 
 
@@ -224,6 +225,23 @@ def rw_default_spell(d):
     return d if ch else None
 
 
+def rw_default_equal_other_form(d):
+    """a not-persisted default written as a value that is EQUAL to it but not identical in form: 3 -> 3.0, 'm/s' -> '{LENGTH}/s'"""
+    ch = False
+    for cid, c in d['configs'].items():
+        if 'V' in (c.get('tasks') or []) and any(p['name'] == 'unit' for p in d['tasks']['V']['params']):
+            if 'dflt' not in c['values']:
+                c['values']['dflt'] = 3.0
+                ch = True
+            elif c['values']['dflt'] == 3 and isinstance(c['values']['dflt'], int):
+                c['values']['dflt'] = 3.0
+                ch = True
+            if 'unit' not in c['values']:
+                c['values']['unit'] = '{LENGTH}/s'
+                ch = True
+    return d if ch else None
+
+
 def rw_to_context(kind):
     def f(d):
         root = d['configs'][_inner_root(d)]
@@ -288,7 +306,7 @@ def rw_add_optional(d):
     return d
 
 
-REWRITINGS = [rw_rename, rw_move, rw_media, rw_wrap('o'), rw_wrap('o::p'), rw_perm_lists, rw_perm_keys, rw_perm_obj_dict, rw_perm_obj_kwargs, rw_ignored, rw_default_spell,
+REWRITINGS = [rw_default_equal_other_form, rw_rename, rw_move, rw_media, rw_wrap('o'), rw_wrap('o::p'), rw_perm_lists, rw_perm_keys, rw_perm_obj_dict, rw_perm_obj_kwargs, rw_ignored, rw_default_spell,
               rw_to_context('dict'), rw_to_context('json'), rw_to_context('list'), rw_global_var, rw_perm_meta, rw_add_optional]
 
 
